@@ -821,10 +821,34 @@ func runEvalOrder(c *Ctx, r *Reporter) {
 				}
 			}
 		}
+		// the operands may be put into a list literal and evaluated in a loop over it: the order of evaluation is then
+		// the order of the literal, provided the loop ascends
+		var litOrder []string
+		if !complete(evalOf) {
+			for _, h := range regionFns(sf, 2, dispatcherNames) {
+				if lo := literalEvalOrder(h, ei.reach); len(lo) > 0 {
+					litOrder = lo
+					break
+				}
+			}
+		}
 		for i := 0; i+1 < len(s.fields); i++ {
 			f1, f2 := s.fields[i], s.fields[i+1]
 			c1, c2 := evalOf[f1], evalOf[f2]
 			construct := fmt.Sprintf("%s#order:%s<%s", fd.QName(), f1, f2)
+			if (c1 == nil || c2 == nil) && litOrder != nil {
+				i1, i2 := -1, -1
+				for k, f := range litOrder {
+					if f == f1 && i1 < 0 {
+						i1 = k
+					}
+					if f == f2 && i2 < 0 {
+						i2 = k
+					}
+				}
+				r.Check(i1 >= 0 && i2 >= 0 && i1 < i2, construct, p.Rel(fd.Decl.Pos()), f1+" is evaluated before "+f2+" (position in the list the evaluation loop ascends over)", fmt.Sprintf("%s evaluates %s before %s: operands must be evaluated left to right (side effects of operand expressions would be observed in the wrong order)", s.fn, f2, f1))
+				continue
+			}
 			if c1 == nil || c2 == nil {
 				r.Viol(construct, p.Rel(fd.Decl.Pos()), fmt.Sprintf("cannot find the evaluation of field %s and/or %s in %s", f1, f2, s.fn))
 				continue
@@ -1217,3 +1241,92 @@ var anchoredOps = func() map[string]bool {
 	}
 	return m
 }()
+
+// literalEvalOrder: fn evaluates, in a loop with an ascending index, the elements of a list literal whose elements are
+// node fields (for i, n := range []parser.Node{r.GetStart(), r.GetStop(), r.GetStep()} { e.evalNum(n) }); it returns
+// the fields in the order of the literal.
+func literalEvalOrder(fn *ssa.Function, reach map[*ssa.Function]bool) []string {
+	for _, b := range fn.Blocks {
+		for _, ins := range b.Instrs {
+			call, ok := ins.(*ssa.Call)
+			if !ok || call.Call.StaticCallee() == nil || !reach[call.Call.StaticCallee()] || !inCycle(b) {
+				continue
+			}
+			for _, a := range call.Call.Args {
+				u, ok := a.(*ssa.UnOp)
+				if !ok {
+					continue
+				}
+				ia, ok := u.X.(*ssa.IndexAddr)
+				if !ok || !ascendingInduction(ia.Index) && !ascendingCounter(ia.Index) {
+					continue
+				}
+				sl, ok := ia.X.(*ssa.Slice)
+				if !ok {
+					continue
+				}
+				al, ok := sl.X.(*ssa.Alloc)
+				if !ok || sl.Low != nil || al.Referrers() == nil {
+					continue
+				}
+				at := map[int64]string{}
+				n := int64(0)
+				for _, ref := range *al.Referrers() {
+					ea, ok := ref.(*ssa.IndexAddr)
+					if !ok || ea.Referrers() == nil {
+						continue
+					}
+					k, ok := ea.Index.(*ssa.Const)
+					if !ok {
+						continue
+					}
+					for _, r2 := range *ea.Referrers() {
+						if st, ok := r2.(*ssa.Store); ok {
+							if f := nodeFieldOf(st.Val, 0); f != "" {
+								at[k.Int64()] = f
+								if k.Int64()+1 > n {
+									n = k.Int64() + 1
+								}
+							}
+						}
+					}
+				}
+				var out []string
+				for i := int64(0); i < n; i++ {
+					if at[i] == "" {
+						out = nil
+						break
+					}
+					out = append(out, at[i])
+				}
+				if len(out) > 1 {
+					return out
+				}
+			}
+		}
+	}
+	return nil
+}
+
+// ascendingCounter: phi [const, phi+1] (a counting loop that tests before the body).
+func ascendingCounter(idx ssa.Value) bool {
+	phi, ok := idx.(*ssa.Phi)
+	if !ok {
+		return false
+	}
+	step := false
+	for _, e := range phi.Edges {
+		if _, isConst := e.(*ssa.Const); isConst {
+			continue
+		}
+		bo, ok := e.(*ssa.BinOp)
+		if !ok || bo.Op != token.ADD || bo.X != ssa.Value(phi) {
+			return false
+		}
+		if k, ok := bo.Y.(*ssa.Const); !ok || k.Value == nil || k.Value.ExactString() != "1" {
+			return false
+		}
+		step = true
+	}
+	return step
+}
